@@ -1,6 +1,8 @@
 //! vcore — the engine for the properties decided on the Rust crate through its public API plus
 //! the cfg(blake3_team_blake3_verif) hooks. One sub-engine per property; see /verif/DESIGN.md.
 mod c01;
+#[cfg(feature = "std")]
+mod c07api;
 mod c09;
 #[cfg(feature = "std")]
 mod c11;
@@ -34,6 +36,8 @@ fn main() {
             "C01" => c01::replay(&v),
             "C02" | "C10" => hbfs::replay(&v),
             "C03" => xbfs::replay(&v),
+            #[cfg(feature = "std")]
+            "C07" => c07api::replay(&v),
             "C09" => c09::replay(&v),
             #[cfg(feature = "std")]
             "C11" => c11::replay(&v),
@@ -53,6 +57,7 @@ fn main() {
         "C01" => ("core/oneshot", "exploration"),
         "C02" | "C10" => ("core/hasher_bfs", "model_checking"),
         "C03" => ("core/xof_bfs", "model_checking"),
+        "C07" => ("core/api_guard", "exploration"),
         "C09" => ("core/hazmat", "exploration"),
         "C11" => ("core/adapters", "fault_enumeration"),
         "C14" => ("core/hash_value", "exploration"),
@@ -68,6 +73,8 @@ fn main() {
     match args.prop.as_str() {
         "C01" => c01::run(&args, &mut rep),
         "C03" => xbfs::run(&args, &mut rep),
+        #[cfg(feature = "std")]
+        "C07" => c07api::run(&args, &mut rep),
         "C09" => c09::run(&args, &mut rep),
         #[cfg(feature = "std")]
         "C11" => c11::run(&args, &mut rep),
